@@ -17,6 +17,7 @@ package tree
 
 //@ func newTreeNode
 //@   props C01 C08 C11
+//@   definitional
 //@   ensures[node] result.Hash == H(left, right) && result.Left == left && result.Right == right
 
 //@ func generateZeroHashes
@@ -45,6 +46,7 @@ package tree
 //@ func (t *Tree) getRHTNode
 //@   props C01 C08 C11
 //@   trusted
+//@   definitional
 //@   sqltext "SELECT * FROM %s WHERE hash = $1"
 //@   requires t != nil
 //@   modifies nothing
@@ -65,3 +67,111 @@ package tree
 //@   ensures[proof-verifies] (err == nil && !hasUsedZeroHashes) ==> foldUp(desc(rhtL(t), rhtR(t), root, index, 0), siblings, index, 32) == root
 //@   ensures[missing-means-flag] (err == nil && !hasUsedZeroHashes) ==> rhtHas(t)[root]
 //@   loop 0 unroll 32
+
+// ---- the bridge contract's deposit tree (DepositContractBase), transcribed (assumption A3).
+// state: branch[0..31], depositCount.  _addLeaf(leaf): size = ++count; node = leaf;
+//   for h: if bit_h(size) { branch[h] = node; return }; node = H(branch[h], node)
+// getRoot(): node = 0; for h: node = bit_h(count) ? H(branch[h], node) : H(node, zero_h)
+// The specification is written over the bits of idx = count before the append (the index of the new leaf):
+// bit_h(idx+1) = bitSucc(idx, h), and the level _addLeaf writes is the lowest zero bit of idx.
+
+//@ spec fn allOnes(x uint32, h int) bool = ite(h <= 0, true, bitAt(x, h-1) && allOnes(x, h-1))
+//@ spec fn bitSucc(x uint32, h int) bool = ite(allOnes(x, h), !bitAt(x, h), bitAt(x, h))
+//@ spec fn solNode(branch []Hash, leaf Hash, h int) Hash = ite(h <= 0, leaf, H(branch[h-1], solNode(branch, leaf, h-1)))
+//@ spec fn solAddAt(branch []Hash, idx uint32, leaf Hash, h int) Hash = ite(allOnes(idx, h) && !bitAt(idx, h), solNode(branch, leaf, h), branch[h])
+//@ spec fn solRootAfter(branch []Hash, idx uint32, leaf Hash, h int) Hash = ite(h <= 0, ZeroHash, ite(bitSucc(idx, h-1), H(solAddAt(branch, idx, leaf, h-1), solRootAfter(branch, idx, leaf, h-1)), H(solRootAfter(branch, idx, leaf, h-1), zeroAt(h-1))))
+// getRoot() over an explicit frontier and deposit count
+//@ spec fn solRoot(branch []Hash, size uint32, h int) Hash = ite(h <= 0, ZeroHash, ite(bitAt(size, h-1), H(branch[h-1], solRoot(branch, size, h-1)), H(solRoot(branch, size, h-1), zeroAt(h-1))))
+// the node the Go loop holds before level h (mirror of the code, over the frontier cache it started with)
+//@ spec fn goNode(cache []Hash, idx uint32, leaf Hash, h int) Hash = ite(h <= 0, leaf, ite(bitAt(idx, h-1), H(cache[h-1], goNode(cache, idx, leaf, h-1)), H(goNode(cache, idx, leaf, h-1), zeroAt(h-1))))
+
+// ghost: the contract's frontier mirrored by an append-only tree, and its value when the open transaction began
+//@ ghost field solBranch []Hash
+//@ ghost field solCount int
+//@ ghost field txBranch []Hash
+//@ ghost field txCount int
+
+// ghost view of the root table: one row per leaf position
+//@ ghost field rootHas map[int]bool
+//@ ghost field rootHash map[int]Hash
+//@ ghost field rootBlock map[int]int
+//@ ghost field rootPos map[int]int
+
+// rollback callbacks registered on a transaction (ghost counter) and what the tree's callback does to lastIndex
+//@ ghost field undoCnt int
+//@ spec fn undoStep(l int) int = l - 1
+//@ spec fn rollbackIndex(l int, k int) int = l - k
+//@ lemma rollbackClosedForm(l int, k int)
+//@   props C07
+//@   requires k >= 0
+//@   ensures[base] rollbackIndex(l, 0) == l
+//@   ensures[step] rollbackIndex(l, k + 1) == undoStep(rollbackIndex(l, k))
+
+//@ interface github.com/agglayer/aggkit/db/types.Txer.AddRollbackCallback (self, cb)
+//@   requires self != nil
+//@   modifies undoCnt(self)
+//@   ensures undoCnt(self) == old(undoCnt(self)) + 1
+
+//@ func (t *Tree) storeRoot
+//@   props C01 C07 C11
+//@   trusted
+//@   requires t != nil
+//@   modifies rootHas(t), rootHash(t), rootBlock(t), rootPos(t)
+//@   ensures result == nil ==> rootHas(t) == upd(old(rootHas(t)), root.Index, true) && rootHash(t) == upd(old(rootHash(t)), root.Index, root.Hash) && rootBlock(t) == upd(old(rootBlock(t)), root.Index, root.BlockNum) && rootPos(t) == upd(old(rootPos(t)), root.Index, root.BlockPosition)
+//@   ensures result != nil ==> rootHas(t) == old(rootHas(t)) && rootHash(t) == old(rootHash(t)) && rootBlock(t) == old(rootBlock(t)) && rootPos(t) == old(rootPos(t))
+
+//@ func (t *Tree) storeNodes
+//@   props C01 C07 C08 C11
+//@   trusted
+//@   requires t != nil
+//@   requires forall(k, 0, len(nodes), nodes[k].Hash == H(nodes[k].Left, nodes[k].Right))
+//@   modifies rhtHas(t), rhtL(t), rhtR(t)
+//@   ensures forall(x, Hash, old(rhtHas(t))[x] ==> rhtHas(t)[x] && rhtL(t)[x] == old(rhtL(t))[x] && rhtR(t)[x] == old(rhtR(t))[x])
+//@   ensures forall(x, Hash, rhtHas(t)[x] ==> x == H(rhtL(t)[x], rhtR(t)[x]))
+//@   ensures result == nil ==> forall(k, 0, len(nodes), rhtHas(t)[nodes[k].Hash] && rhtL(t)[nodes[k].Hash] == nodes[k].Left && rhtR(t)[nodes[k].Hash] == nodes[k].Right)
+
+// rebuilding the frontier from the stored tree (restart, reorg): contract assumed for now (see DESIGN.md)
+//@ func (t *AppendOnlyTree) initCache
+//@   trusted
+//@   requires t != nil
+//@   modifies t.lastIndex, t.lastLeftCache
+
+//@ func (t *AppendOnlyTree) AddLeaf$1
+//@   props C07
+//@   requires t != nil
+//@   modifies t.lastIndex
+//@   ensures[undo-step] t.lastIndex == undoStep(old(t.lastIndex))
+
+//@ func (t *AppendOnlyTree) AddLeaf
+//@   props C01 C07
+//@   requires t != nil && t.Tree != nil && tx != nil
+//@   requires len(t.zeroHashes) == 33 && forall(k, 0, 33, t.zeroHashes[k] == zeroAt(k))
+//@   requires 0 <= solCount(t) && solCount(t) < 4294967295 && 0 <= txCount(t) && txCount(t) <= solCount(t)
+//@   requires t.lastIndex + 1 == solCount(t) && leaf.Index == solCount(t)
+//@   requires forall(h, 0, 32, bitAt(leaf.Index, h) ==> t.lastLeftCache[h] == solBranch(t)[h])
+//@   requires undoCnt(tx) == solCount(t) - txCount(t)
+//@   requires rollbackIndex(t.lastIndex, undoCnt(tx)) == -2 || (rollbackIndex(t.lastIndex, undoCnt(tx)) + 1 == txCount(t) && forall(h, 0, 32, bitAt(uint32(txCount(t)), h) ==> t.lastLeftCache[h] == txBranch(t)[h]))
+//@   modifies t.lastIndex, t.lastLeftCache, solBranch(t), solCount(t), rootHas(t.Tree), rootHash(t.Tree), rootBlock(t.Tree), rootPos(t.Tree), rhtHas(t.Tree), rhtL(t.Tree), rhtR(t.Tree), undoCnt(tx)
+// ghost code: on success the mirrored contract performs _addLeaf(leaf.Hash)
+//@   set solCount(t) := ite(result == nil, old(solCount(t)) + 1, old(solCount(t)))
+//@   choose solBranch(t) with ite(result == nil, forall(h, 0, 32, solBranch(t)[h] == solAddAt(old(solBranch(t)), leaf.Index, leaf.Hash, h)), solBranch(t) == old(solBranch(t)))
+//@   ensures[root-is-contract-root] result == nil ==> rootHas(t.Tree)[leaf.Index] && rootHash(t.Tree)[leaf.Index] == solRootAfter(old(solBranch(t)), leaf.Index, leaf.Hash, 32) && rootBlock(t.Tree)[leaf.Index] == blockNum && rootPos(t.Tree)[leaf.Index] == blockPosition
+//@   ensures[frontier-advances] result == nil ==> solCount(t) == old(solCount(t)) + 1 && forall(h, 0, 32, solBranch(t)[h] == solAddAt(old(solBranch(t)), leaf.Index, leaf.Hash, h))
+//@   ensures[coupled] result == nil ==> t.lastIndex + 1 == solCount(t) && forall(h, 0, 32, bitSucc(leaf.Index, h) ==> t.lastLeftCache[h] == solBranch(t)[h])
+//@   ensures[failure-keeps-frontier] result != nil ==> solCount(t) == old(solCount(t)) && solBranch(t) == old(solBranch(t)) && t.lastIndex == old(t.lastIndex) && forall(h, 0, 32, bitAt(leaf.Index, h) ==> t.lastLeftCache[h] == solBranch(t)[h])
+//@   ensures[callback-registered] undoCnt(tx) == old(undoCnt(tx)) + ite(result == nil, 1, 0)
+//@   ensures[rollback-safe] rollbackIndex(t.lastIndex, undoCnt(tx)) == -2 || (rollbackIndex(t.lastIndex, undoCnt(tx)) + 1 == txCount(t) && forall(h, 0, 32, bitAt(uint32(txCount(t)), h) ==> t.lastLeftCache[h] == txBranch(t)[h]))
+//@   loop 0 unroll 32
+// stepping stones checked and then assumed at the head of every unrolled iteration (h is a literal there)
+//@   loop 0 invariant currentChildHash == goNode(old(t.lastLeftCache), leaf.Index, leaf.Hash, h)
+//@   loop 0 invariant forall(k, 0, 32, t.lastLeftCache[k] == ite(k < h && !bitAt(leaf.Index, k), goNode(old(t.lastLeftCache), leaf.Index, leaf.Hash, k), old(t.lastLeftCache)[k]))
+//@   loop 0 invariant allOnes(leaf.Index, h) ==> currentChildHash == solNode(old(solBranch(t)), leaf.Hash, h) && solRootAfter(old(solBranch(t)), leaf.Index, leaf.Hash, h) == zeroAt(h)
+//@   loop 0 invariant !allOnes(leaf.Index, h) ==> currentChildHash == solRootAfter(old(solBranch(t)), leaf.Index, leaf.Hash, h)
+//@   loop 0 invariant len(newNodes) == h && off(newNodes) == 0 && forall(k, 0, h, newNodes[k].Hash == H(newNodes[k].Left, newNodes[k].Right))
+
+// the root over the new frontier is getRoot() of the contract after the append (bits of idx+1 are bitSucc(idx, .))
+//@ lemma rootTranscription(branch []Hash, nb []Hash, idx uint32, leaf Hash)
+//@   props C01
+//@   requires idx < 4294967295
+//@   requires forall(h, 0, 32, nb[h] == solAddAt(branch, idx, leaf, h))
+//@   ensures[same-root] solRootAfter(branch, idx, leaf, 32) == solRoot(nb, uint32(idx + 1), 32)
